@@ -153,9 +153,15 @@ def _worker_loop(
                             )
                             if dataset_iter is not None:
                                 fetcher.dataset_iter = dataset_iter
-                        # We always force fetcher to request at least one batch even if
-                        # we know it will lead to immediate stop iteration
-                        fetcher.ended = False
+                        # A fetcher that had already ended must not pull from the (possibly
+                        # re-armed) restored dataset iterator again: its next fetch raises
+                        # StopIteration. Without any dataset state the epoch is replayed from
+                        # its start (fast-forward), so the fetcher starts afresh.
+                        restored = (
+                            worker_state[_DATASET_STATE] is not None
+                            or worker_state[_FETCHER_STATE][_DATASET_ITER_STATE] is not None
+                        )
+                        fetcher.ended = worker_state[_FETCHER_STATE][_FETCHER_ENDED] if restored else False
                 iteration_end = False
                 initial_state = incremental_worker_state.generate_delta(
                     _make_state_dict(worker_id, dataset_kind, fetcher, dataset)
